@@ -5,16 +5,18 @@ git -C /repo worktree remove --force $wt 2>/dev/null; rm -rf $wt
 git -C /repo worktree add -q --detach $wt HEAD || exit 2
 head=$(git -C /repo log --format=%h -1)
 sib() { case $1 in C08-r4-3) echo "C08 C11";; C17-r3-1) echo "C17 C08";; C17-r3-2|C17-r3-3) echo "C17 C05";; C17-r4-3) echo "C17 C18";; C17-r2-2) echo "C17 C04";; C17-r2-3) echo "C17 C01";; C17-2) echo "C17 C09";;
+  C16-r5-3) echo "C16 C04";; C17-r5-1) echo "C17 C01";; C17-r5-2) echo "C17 C08";; C17-r5-3) echo "C17 C02";;
   C18-r2-1) echo "C18 C05";; C18-r2-2) echo "C18 C04";; C18-r4-1) echo "C18 C06";; *) echo $(echo $1 | cut -c1-3);; esac; }
 for id in $(cat $list); do
   d=/verif/seeded/$id
+  pf=$d/patch.diff; [ -f $d/patch_at_head.diff ] && pf=$d/patch_at_head.diff      # rebased by hand after a fix: commit touched the same line
   git -C $wt checkout -q -- . ; git -C $wt clean -fdq 2>/dev/null
-  if ! git -C $wt apply --check $d/patch.diff 2>/dev/null; then
+  if ! git -C $wt apply --check $pf 2>/dev/null; then
     python3 -c "import json;json.dump({'head':'$head','applies':False,'note':'the patch no longer applies to this HEAD (a later fix: commit changed the same lines); earlier result in meta.json stands'},open('$d/final.json','w'),indent=1)"
     echo "$id: patch does not apply at $head"; continue
   fi
   u=$(cd $wt && timeout 300 /venv/bin/python $d/demo.py $wt >/dev/null 2>&1; echo $?)
-  git -C $wt apply $d/patch.diff
+  git -C $wt apply $pf
   p=$(cd $wt && timeout 300 /venv/bin/python $d/demo.py $wt >/dev/null 2>&1; echo $?)
   res=""
   for c in $(sib $id); do
